@@ -27,7 +27,7 @@ FORMATS = {
     "short": 'ID=%({x-id}i)s S=%(s)s B=%(B)s | %(U)s|%(q)s|%(u)s',
 }
 HOSTILE = ["none", "none", "pct-lf-path", "pct-cr-path", "quotes", "auth-lf", "long", "latin1", "pct-lf-query",
-           "ua-ctl", "rejected"]
+           "ua-ctl", "rejected", "auth-8bit", "auth-garbage"]
 
 
 def make_case(rng):
@@ -39,7 +39,20 @@ def make_case(rng):
     for p in case["progs"]:
         if p.get("fail") and rng.random() < 0.6:
             p.pop("fail")
+    # a file body that is shorter than the announced Content-Length (the file shrank, or was partly read before): the record
+    # must show what really went out.  The client asks for the connection to be closed, so it sees the end.
+    last = case["progs"][-1]
+    if last.get("mode") == "file" and last.get("chunks") and not last.get("fail") and rng.random() < 0.35:
+        last["cl"] = "over"
+        last["over_by"] = rng.randint(1, 600)
+        case["reqs"][-1]["conn"] = ["close"]
+    # a client that is gone before the response is written (it closed right after sending)
+    case["client_gone"] = rng.random() < 0.08
     return case
+
+
+def rng_free_choice(rid, options):
+    return options[int(rid, 16) % len(options)]
 
 
 def render_request(case, i):
@@ -60,6 +73,10 @@ def render_request(case, i):
     elif hostile == "auth-lf":
         cred = base64.b64encode(b"us\ner-injected ID=cafebabe S=200 B=1:pw").decode()
         extra.append("Authorization: Basic " + cred)
+    elif hostile == "auth-8bit":
+        extra.append("Authorization: Basic \xff\xfe\xe9" + rid[:2])           # bytes >= 0x80 where base64 text belongs
+    elif hostile == "auth-garbage":
+        extra.append("Authorization: Basic " + rng_free_choice(rid, ["!!!!", "Zm9v=", "=", "a", "Zm9vOmJhcg", "\t"]))
     elif hostile == "long":
         path += "/" + "L" * 3000
         ua += "A" * 4000
@@ -103,8 +120,10 @@ def run_case(run, e2, harnesses, case, scratch):
     script = b"".join(render_request(case, i) for i in range(len(case["reqs"])))
     router = c02.Router(e2, case["progs"], scratch)
     h.capture.take()
-    out = h.connection(script, router)
+    out = h.connection(script, router, mode="close" if case.get("client_gone") else "halfclose")
     v = []
+    if case.get("client_gone"):
+        run.count("client_gone_before_response_cases")
     text, nrec = out["access_text"], out["access_records"]
     methods = [c02.wire_method(r) for r in case["reqs"]]
     res = c02.parse_lenient_head_errors(out["received"], methods, out["eof"])
@@ -118,7 +137,7 @@ def run_case(run, e2, harnesses, case, scratch):
     ncalls = router.n
     for i, rid in enumerate(case["ids"]):
         app = router.apps[i]
-        completed = bool(app.calls) and not app.calls[0].get("failed_at") and i < ncalls
+        completed = bool(app.calls) and not app.calls[0].get("failed_at") and i < ncalls and app.calls[0].get("returned")
         k = text.count("ua-%s." % rid) if case["format"] == "default" else text.count("ID=%s " % rid)
         # `r` atom and `e`/`U` atoms may also contain id-<rid>: count records (lines), not substrings
         if records is not None:
@@ -152,7 +171,15 @@ def run_case(run, e2, harnesses, case, scratch):
             rp = res.responses[i]
             if m.group(1) != str(rp.status):
                 v.append(("status-field-differs", "record says %s, client received %s" % (m.group(1), rp.status)))
-            if rp.complete and res.problem is None or (rp.complete and i < len(res.responses) - 1):
+            spec_i = case["progs"][i]
+            if spec_i.get("cl") == "over" and not case.get("client_gone") and out["eof"] and rp.framing == "cl":
+                # the body ends short of its Content-Length; the client read to the end of the connection
+                run.count("B_compared_short_file_body")
+                if m.group(2) != str(len(rp.body)):
+                    v.append(("bytes-field-differs/short-file-body", "record says B=%s, the client received %d body bytes before the "
+                              "connection ended (Content-Length announced %s, file_wrapper over a %s)" % (
+                                  m.group(2), len(rp.body), rp.get(b"content-length"), spec_i["file"]["kind"])))
+            elif rp.complete and res.problem is None or (rp.complete and i < len(res.responses) - 1):
                 run.count("B_compared")
                 spec = case["progs"][i]
                 got_b = m.group(2)
@@ -282,7 +309,8 @@ def shard(sh):
 def main(tier, seed):
     run = Run(PROP, tier, seed, "exploration", RULE)
     run.require("completed_requests", "rejected_requests", "B_compared", "B_nonzero_matches",
-                "hostile/pct-lf-path", "hostile/auth-lf", "hostile/rejected")
+                "hostile/pct-lf-path", "hostile/auth-lf", "hostile/rejected", "hostile/auth-8bit", "B_compared_short_file_body",
+                "client_gone_before_response_cases")
     q = tier == "quick"
     shards = [{"n": 1200 if q else 15000, "sub": i, "seed": seed, "tier": tier} for i in range(32 if q else 64)]
     classes = ["sync", "gthread", "gevent", "eventlet"]
